@@ -241,7 +241,9 @@ def mapVarsHead (f : String → String) : Head → Head
 def simpleEq? : Lit → Option (String × String)
   | (s, .cmp (.var a) (g :: _)) =>
     match g.term with
-    | .var b => if (s == .pos && g.op == .eq) || (s == .neg && g.op == .ne) then some (a, b) else none
+    -- fix (known_findings.json `fixed:`): an equality with the anonymous variable is no assignment (every `_` is a
+    -- variable of its own)
+    | .var b => if ((s == .pos && g.op == .eq) || (s == .neg && g.op == .ne)) && a != "_" && b != "_" then some (a, b) else none
     | _ => none
   | _ => none
 
